@@ -340,6 +340,21 @@ def check(ctx):
     slim = [{k: v for k, v in c.items() if k != 'root'} for c in cases]
     st = core.judge(ctx, slim, [view(m) for m in model], [view(i) for i in impl], oracle, label='verify')
     kh = kill_histories(ctx)
+    # a storage made by runs over a tree whose regular files are all empty (records, but no bytes): healthy
+    from vlib import hist as hist_
+    for j in range(2 if ctx.tier == 'quick' else 6):
+        wz = hist_.World(ctx, 9300 + j, random.Random(ctx.seed * 7 + j), max_groups=2, max_per_group=2)
+        try:
+            os.makedirs(os.path.join(wz.items[0], 'pkg', 'sub'), exist_ok=True)
+            for nm in ('.gitkeep', 'pkg/__init__.py', 'pkg/sub/__init__.py'):
+                open(os.path.join(wz.items[0], nm), 'w').close()
+            ok_runs = all(wz.backup(advance=hist_.DAY if j % 2 else 5).rc == 0 for _ in range(1 + j % 3))
+            vz = core.run_lines(core.harness_exe(ctx), [core.req('verify', {'root': wz.root})])[0]
+            if ok_runs and not (isinstance(vz, dict) and vz.get('ok') is True):
+                ctx.violation('property', 'storage reported inconsistent after vsb runs alone: every regular file of the tree is empty, the manifests hold their records (%s)'
+                              % str(vz)[:200], {'case': {'scenario': 'only-empty-files', 'index': j}})
+        finally:
+            wz.cleanup()
 
     # ---- age alarm grid (real check_backups under the faked clock) ----
     NOW = 1000000000
@@ -354,7 +369,8 @@ def check(ctx):
                 for shape in range(4):
                     groups = [[t - 90000, t - 100], [t]] if shape == 0 else [[t]] if shape == 1 else [[t - 5, t], []] if shape == 2 else [[t - 86400], [t], [], []]
                     age_cases.append({'groups': groups, 'now': NOW, 'max_age': maxs, 'spec': '%d%s' % (n, u)})
-    age_cases += [{'groups': [], 'now': NOW, 'max_age': 60, 'spec': '1m'}, {'groups': [[], []], 'now': NOW, 'max_age': 60, 'spec': '1m'},
+    age_cases += [{'groups': [], 'now': NOW, 'max_age': None, 'spec': None}, {'groups': [[], []], 'now': NOW, 'max_age': None, 'spec': None},
+                  {'groups': [], 'now': NOW, 'max_age': 60, 'spec': '1m'}, {'groups': [[], []], 'now': NOW, 'max_age': 60, 'spec': '1m'},
                   {'groups': [[NOW - 10**7]], 'now': NOW, 'max_age': None, 'spec': None},
                   {'groups': [[NOW + 50]], 'now': NOW, 'max_age': 60, 'spec': '1m'}]
     for _ in range(100 if ctx.tier == 'quick' else 2000):
